@@ -312,6 +312,11 @@ func (x *Exec) modularCall(st *State, fr *Frame, v *ssa.Call, callee *ssa.Functi
 		}
 		st.assume(t)
 	}
+	if x.topC != nil && fr.fn == x.top && res != nil {
+		if bn, ok := x.topC.CallBinds[x.siteOrd(fr, v)]; ok {
+			fr.binds[bn] = res
+		}
+	}
 	// caller-side use clauses after this call
 	if x.topC != nil && fr.fn == x.top {
 		if us := x.topC.CallUses[x.siteOrd(fr, v)]; len(us) > 0 {
